@@ -331,8 +331,8 @@ func fnBitPos(ctx *cmdContext, args map[string]any) (output respValue, err error
 		}
 	}
 
-	sk, exists := ctx.dsc.getKeyObject(keyName)
-	if !exists {
+	strBytes, valid := ctx.dsc.getKeyBytes(keyName)
+	if valid == VALUE_DOESNT_EXIST {
 		if bit64 != 0 {
 			// N.B., redis is inconsistent here, it should return
 			// 0 if noEnd is false
@@ -343,8 +343,7 @@ func fnBitPos(ctx *cmdContext, args map[string]any) (output respValue, err error
 		return
 	}
 
-	strBytes := sk.getStringBytes()
-	if strBytes == nil {
+	if valid == VALUE_WRONG_TYPE {
 		output.data = wrongTypeError
 		return
 	}
@@ -366,14 +365,13 @@ func fnGetBit(ctx *cmdContext, args map[string]any) (output respValue, err error
 		return
 	}
 
-	sk, exists := ctx.dsc.getKeyObject(keyName)
-	if !exists {
+	strBytes, valid := ctx.dsc.getKeyBytes(keyName)
+	if valid == VALUE_DOESNT_EXIST {
 		output.data = respInt(0)
 		return
 	}
 
-	strBytes := sk.getStringBytes()
-	if strBytes == nil {
+	if valid == VALUE_WRONG_TYPE {
 		output.data = wrongTypeError
 		return
 	}
